@@ -16,7 +16,7 @@ RULE = ("correlation A: host call in {none, cudaLaunchKernel, cudaLaunchKernelEx
         "correlation B: one of 4 fixed background patterns; optional uncorrelated extras (launch call without "
         "correlation id + GPU annotation); a magnitude family (raw timestamps/durations near the int8/int16/int32 "
         "boundaries); x include_memory_events {T,F} x ranks {None,[0],[1],[0,1],[1,0]} with a "
-        "second rank whose non-launch pairs reuse the first rank's correlation ids. non-trivial = at least one expected row and at least one excluded call or activity")
+        "second rank whose non-launch pairs reuse the first rank's correlation ids. worlds with background pattern 1 run a critical path analysis of a one-call window on the same object first. non-trivial = at least one expected row and at least one excluded call or activity")
 ASSUMPTIONS = [
     "well-formed trace; a launch call is a runtime call named cudaLaunchKernel, cudaLaunchKernelExC, "
     "cudaMemcpyAsync or cudaMemsetAsync (memory launches only when include_memory_events)",
@@ -139,6 +139,12 @@ def check(world) -> Dict[str, Any]:
     ranks = {0: world["events"], 1: RANK1}
     ta, _ = htaenv.load_world(ranks)
     execs = 0
+    if world["bg"] == 1 and world["timing"][0] != "magnitude":
+        # an earlier analysis of the same session: critical path of the window of one launch call (its outcome is not judged here)
+        try:
+            ta.critical_path_analysis(rank=0, annotation="cudaLaunchKernel", instance_id=0)
+        except Exception:
+            pass
     n_rows = 0
     for mem in (True, False):
         exp = {r: expected(e, mem) for r, e in ranks.items()}
